@@ -10,6 +10,7 @@
   real structure with the model tree are evaluated by the driver on a dump after every operation.
 -/
 import ArtVerif.Props.C02
+import ArtVerif.Proofs.Canon
 namespace ArtVerif.C11
 open ArtVerif T Tree
 
@@ -41,6 +42,62 @@ theorem keys_below_share_path {kind plen inl} {ch : Ch V} {p : Bytes}
 
 /-- the number of reachable keys equals the reported size -/
 theorem reachable_eq_size {tf} {t : Tree V} (h : Inv tf t) : (items t).length = t.size := h.size.symm
+
+/-- apart from the size class of each node, the shape depends only on the key set: two well-formed trees
+    with the same leaf keys have the same compressed paths, branch bytes and nesting -/
+theorem canonical_shape {W : Type} (t : T V) (t' : T W) (h : WF t []) (h' : WF t' [])
+    (hk : keysOf t = keysOf t') : shape t = shape t' := T.canonical_shape t t' [] h h' hk
+
+/-- … in particular it does not depend on the history: two trees (of any value types, reached by any
+    histories) that denote maps with the same key set have the same shape -/
+theorem shape_history_independent {W : Type} {tf} {t : Tree V} {t' : Tree W} (h : Inv tf t) (h' : Inv tf t')
+    (hdom : ∀ k, (abs t k).isSome = (abs t' k).isSome) :
+    t.root.map shape = t'.root.map shape := by
+  -- the key lists are strictly sorted lists with the same members
+  have hkeys : (items t).map (fun it => ((it.1, it.2.1, ()) : Item Unit)) =
+      (items t').map (fun it => ((it.1, it.2.1, ()) : Item Unit)) := by
+    apply sorted_ext
+    · rw [List.pairwise_map]; exact List.Pairwise.imp (fun h => h) (items_sorted h)
+    · rw [List.pairwise_map]; exact List.Pairwise.imp (fun h => h) (items_sorted h')
+    · intro x
+      simp only [List.mem_map]
+      constructor
+      · rintro ⟨it, hit, rfl⟩
+        have hs : (abs t it.1).isSome = true := by rw [C02.items_only_keyed h it hit]; rfl
+        rw [hdom] at hs
+        obtain ⟨w, hw⟩ := Option.isSome_iff_exists.mp hs
+        have := (abs_eq_some_iff h' it.1 w).mp hw
+        exact ⟨_, this, by simp [h.keyed it hit]⟩
+      · rintro ⟨it, hit, rfl⟩
+        have hs : (abs t' it.1).isSome = true := by rw [C02.items_only_keyed h' it hit]; rfl
+        rw [← hdom] at hs
+        obtain ⟨w, hw⟩ := Option.isSome_iff_exists.mp hs
+        have := (abs_eq_some_iff h it.1 w).mp hw
+        exact ⟨_, this, by simp [h'.keyed it hit]⟩
+  have hk : (items t).map (fun it => (it.1, it.2.1)) = (items t').map (fun it => (it.1, it.2.1)) := by
+    have := congrArg (List.map (fun (x : Item Unit) => (x.1, x.2.1))) hkeys
+    simpa [List.map_map, Function.comp_def] using this
+  cases hr : t.root with
+  | none =>
+    cases hr' : t'.root with
+    | none => rfl
+    | some r' =>
+      exfalso
+      have := inorder_ne_nil r' (WF.full r' [] (h'.wf r' hr'))
+      simp [items, leaves, hr, hr'] at hk
+      exact this hk
+  | some r =>
+    cases hr' : t'.root with
+    | none =>
+      exfalso
+      have := inorder_ne_nil r (WF.full r [] (h.wf r hr))
+      simp [items, leaves, hr, hr'] at hk
+      exact this hk
+    | some r' =>
+      simp only [Option.map_some]
+      congr 1
+      apply T.canonical_shape r r' [] (h.wf r hr) (h'.wf r' hr')
+      simpa [items, leaves, hr, hr', keysOf] using hk
 
 /-- the thresholds the library uses keep every class within its capacity (regenerated constants) -/
 theorem thresholds_consistent :
